@@ -206,6 +206,7 @@ func (s *simReader) Seek(off int64, whence int) (int64, error) {
 // ---- scenario ----
 
 type Spec struct {
+	PadWS     int64         `json:"pad_ws,omitempty"` // at execution, this many bytes of white space are inserted behind the opening brace
 	Jump      int64         `json:"jump,omitempty"` // file-rewrite: the clock advances by this much between the two versions
 	Kind      string        `json:"kind"` // writer-output relayout nearmiss nonsbom tagvalue empty truncate-all
 	B         string        `json:"b"`    // base64 input bytes
@@ -686,6 +687,14 @@ func (Engine) Generate(prop string, verifSeed int64, tier string, idx int) *core
 		}
 	}
 	sp.B = base64.StdEncoding.EncodeToString(b)
+	if cs := gen.SizeConstants("formats"); len(cs) > 0 && (sp.Kind == "writer-output" || sp.Kind == "relayout") && len(sp.Faults) == 0 && r.Intn(300) == 0 && len(b) > 0 && b[0] == '{' {
+		// a size the detector's own code names (a window, a buffer): the document is padded with white space to that size, a bit less, a bit more
+		c := cs[r.Intn(len(cs))]
+		sp.PadWS = c + int64([]int{-1 - len(b), -len(b), 1 - len(b), 1, 4096}[r.Intn(5)])
+		if sp.PadWS < 0 {
+			sp.PadWS = 0
+		}
+	}
 	if r.Intn(4) == 0 {
 		sp.ReaderAt = true
 	}
@@ -693,6 +702,10 @@ func (Engine) Generate(prop string, verifSeed int64, tier string, idx int) *core
 		sp.StartOff = 1 + r.Intn(len(b)-1)
 	}
 	sp.Chunkings = genChunkings(r, len(b))
+	if sp.PadWS > 1<<20 {
+		sp.Chunkings = [][]int{nil, {65536}} // megabytes: not byte by byte
+		sp.StartOff = 0
+	}
 	sp.EOFWith = r.Intn(3) == 0
 	sc := &core.Scenario{V: 1, Property: "C06", Engine: "stream", VerifSeed: verifSeed, Run: idx, RunSeed: seed}
 	sc.Sched = verifsim.Config{Seed: seed, Policy: "serial", MaxSteps: 20000000, MapOrder: "random"}
@@ -807,6 +820,13 @@ func (Engine) Execute(sc *core.Scenario) *core.Result {
 		return res
 	}
 	data, _ := base64.StdEncoding.DecodeString(sp.B)
+	if sp.PadWS > 0 && len(data) > 0 && data[0] == '{' {
+		padded := make([]byte, 0, len(data)+int(sp.PadWS))
+		padded = append(padded, '{')
+		padded = append(padded, bytes.Repeat([]byte{' '}, int(sp.PadWS))...)
+		data = append(padded, data[1:]...)
+		res.Probes["document padded to a size the detector's code names"]++
+	}
 	verifsim.ClockSet(1700000000 * 1000000000)
 	var outs []string
 	body := func(*verifsim.Task) {
